@@ -78,14 +78,14 @@ Section Run.
 
   (** the certificate just loaded from storage: only when the cache is almost full, for the name
       of the ClientHello (which must qualify), found under that name or under the name with its
-      first label replaced by "*", and not due for renewal *)
+      first label replaced by "*", and still valid (if it is due for renewal it is served all the same and removed afterwards) *)
   Definition loaded_ok (c : lcase) (h : hash) : bool :=
     almost_full (l_cap c) (length (cache (l_state c))) &&
     match hello_name lower is_space (l_cfg c) (l_ip c) (x_idna (l_envx c)) with
     | Some nm =>
         subject_qualifies is_space nm &&
         match load_from_storage (x_storage (l_envx c)) (x_broken (l_envx c)) nm with
-        | Some x => sd_fresh x && str_eqb (c_hash (sd_cert x)) h
+        | Some x => sd_servable x && str_eqb (c_hash (sd_cert x)) h
         | None => false
         end
     | None => false
@@ -228,10 +228,10 @@ Definition get_policy : dec policy :=
   (t <- get_z ;;
    if t =? 0 then ret PDefault else if t =? 1 then ret PMin else if t =? 2 then ret PMax
    else if t =? 3 then ret PGoodMin else if t =? 4 then ret PRefuse else (fun _ => None))%Z.
-(** a storage entry: the name it is stored under, the certificate, fresh?, complete? *)
+(** a storage entry: the name it is stored under, the certificate, fresh?, servable?, complete? *)
 Definition get_stored : dec (str * stored * (str * bool)) :=
-  (n <- get_str ;; c <- get_cert ;; f <- get_bool ;; k <- get_bool ;;
-   ret (n, Stored c f, (c_hash c, k)))%Z.
+  (n <- get_str ;; c <- get_cert ;; f <- get_bool ;; sv <- get_bool ;; k <- get_bool ;;
+   ret (n, Stored c f sv, (c_hash c, k)))%Z.
 Definition get_case : dec case :=
   (k <- get_z ;;
    if k =? 0 then
